@@ -24,6 +24,12 @@ theorem collect_map {α : Type} (p : R → Option α) (g : α → R) (h : ∀ x,
   | nil => rfl
   | cons a l ih => simp [collect, h, ih]
 
+theorem collect_map2 {α β : Type} (p : R → Option α) (g : β → R) (e : β → α) (h : ∀ x, p (g x) = some (e x))
+    (l : List β) : collect p (l.map g) = some (l.map e) := by
+  induction l with
+  | nil => rfl
+  | cons a l ih => simp [collect, h, ih]
+
 theorem rdList_map {α : Type} (f : α → Json) (g : α → R) (l : List α) (h : ∀ x ∈ l, rd (f x) = g x) :
     rdList (l.map f) = l.map g := by
   induction l with
@@ -89,10 +95,10 @@ theorem rd_dirsJ (ds : List Directive) : rdList (ds.map dirJ) = (ds.map eraseDir
 /-! collected readings of printed lists -/
 
 theorem collect_rd_args (as : List Arg) : collect asArg (rdList (as.map argJ)) = some (eraseArgs as) := by
-  rw [rd_argsJ]; exact collect_map _ _ (fun _ => rfl) _
+  rw [rd_argsJ]; exact collect_map asArg (fun a => R.node (.arg a)) (fun _ => rfl) _
 
 theorem collect_rd_dirs (ds : List Directive) : collect asDir (rdList (ds.map dirJ)) = some (ds.map eraseDir) := by
-  rw [rd_dirsJ]; exact collect_map _ _ (fun _ => rfl) _
+  rw [rd_dirsJ]; exact collect_map asDir (fun d => R.node (.dir d)) (fun _ => rfl) _
 
 theorem selSetKV_ne (js : List Json) (h : js ≠ []) : selSetKV js = [("selectionSet", selSetJ js)] := by
   cases js with
@@ -172,8 +178,7 @@ theorem rd_varDefJ (v : VarDef) : rd (varDefJ v) = .node (.varDef (eraseVarDef v
 theorem collect_rd_varDefs (vs : List VarDef) :
     collect asVarDef (rdList (vs.map varDefJ)) = some (vs.map eraseVarDef) := by
   rw [rdList_map varDefJ (fun v => R.node (.varDef (eraseVarDef v))) vs (fun v _ => rd_varDefJ v)]
-  rw [← List.map_map (f := eraseVarDef) (g := fun v => R.node (.varDef v))]
-  exact collect_map _ _ (fun _ => rfl) _
+  exact collect_map2 asVarDef _ eraseVarDef (fun _ => rfl) _
 
 theorem opKindOf_asStr (k : OpKind) : opKindOf k.asStr = some k := by
   cases k <;> simp [opKindOf, OpKind.asStr]
@@ -210,8 +215,8 @@ theorem rd_defsJ (defs : List ExecDef) (h : Resolved defs) :
     have ih := ih hr
     simp only [defsJ, erasePos] at ih ⊢
     cases d with
-    | op o => simp [List.filterMap_cons, defJ, rdList, rd_opJ o hd, ih, eraseDef]
-    | frag f => simp [List.filterMap_cons, defJ, rdList, rd_fragJ f hd, ih, eraseDef]
+    | op o => simp [defJ, rdList, rd_opJ o hd, ih, eraseDef]
+    | frag f => simp [defJ, rdList, rd_fragJ f hd, ih, eraseDef]
     | imp i => simp [defOk] at hd
 
 theorem readDoc_toJson (defs : List ExecDef) (h : Resolved defs) : readDoc (toJson defs) = some (erasePos defs) := by
